@@ -63,6 +63,8 @@ type Term struct {
 	name string
 	id   int
 	ub   uint64 // unsigned upper bound on the value (bv only)
+	lb   uint64 // unsigned lower bound on the value (bv only)
+	pm   uint64 // mask of bits that may be one (bv only)
 }
 
 func (t *Term) IsConst() bool { return t.op == OConst }
@@ -126,7 +128,20 @@ func (c *Ctx) mk(t *Term) *Term {
 	t.id = c.nextID
 	c.nextID++
 	if t.w > 0 {
+		t.pm = c.possible(t)
 		t.ub = c.bound(t)
+		if t.pm < t.ub {
+			t.ub = t.pm
+		}
+		if t.ub < mask(t.w) {
+			if m := mask(bits.Len64(t.ub)); m < t.pm {
+				t.pm &= m
+			}
+		}
+		t.lb = c.lower(t)
+		if t.lb > t.ub {
+			t.lb = 0
+		}
 	}
 	c.tab[k] = t
 	return t
@@ -171,6 +186,12 @@ func (c *Ctx) bound(t *Term) uint64 {
 			return m
 		}
 		return lo
+	case OSub:
+		// no wrap-around when the minuend's lower bound covers the subtrahend
+		if t.a[0].lb >= t.a[1].ub {
+			return t.a[0].ub - t.a[1].lb
+		}
+		return m
 	case OUDiv:
 		if t.a[1].op == OConst && t.a[1].c != 0 {
 			return t.a[0].ub / t.a[1].c
@@ -211,6 +232,82 @@ func (c *Ctx) bound(t *Term) uint64 {
 		return min(m, (t.a[0].ub<<uint(lw))|mask(lw))
 	}
 	return m
+}
+
+// possible computes a mask of the bits that may be set in t.
+func (c *Ctx) possible(t *Term) uint64 {
+	m := mask(t.w)
+	switch t.op {
+	case OConst:
+		return t.c
+	case OZExt:
+		return t.a[0].pm
+	case OExtract:
+		return (t.a[0].pm >> uint(t.c&0xff)) & m
+	case OAnd:
+		return t.a[0].pm & t.a[1].pm
+	case OOr, OXor:
+		return t.a[0].pm | t.a[1].pm
+	case OShl:
+		if t.a[1].op == OConst && t.a[1].c < 64 {
+			return (t.a[0].pm << t.a[1].c) & m
+		}
+	case OLShr:
+		if t.a[1].op == OConst && t.a[1].c < 64 {
+			return t.a[0].pm >> t.a[1].c
+		}
+	case OIte:
+		return t.a[1].pm | t.a[2].pm
+	case OConcat:
+		lw := t.a[1].w
+		if lw < 64 {
+			return (t.a[0].pm<<uint(lw) | t.a[1].pm) & m
+		}
+	}
+	return m
+}
+
+// lower computes an unsigned lower bound from the structure of t.
+func (c *Ctx) lower(t *Term) uint64 {
+	switch t.op {
+	case OConst:
+		return t.c
+	case OZExt:
+		return t.a[0].lb
+	case OExtract:
+		if t.c&0xff == 0 && t.a[0].ub <= mask(t.w) {
+			return t.a[0].lb
+		}
+	case OAdd:
+		s, carry := bits.Add64(t.a[0].ub, t.a[1].ub, 0)
+		if carry == 0 && s <= mask(t.w) {
+			return t.a[0].lb + t.a[1].lb
+		}
+	case OOr:
+		if t.a[0].lb > t.a[1].lb {
+			return t.a[0].lb
+		}
+		return t.a[1].lb
+	case OSub:
+		if t.a[0].lb >= t.a[1].ub {
+			return t.a[0].lb - t.a[1].ub
+		}
+	case OIte:
+		if t.a[1].lb < t.a[2].lb {
+			return t.a[1].lb
+		}
+		return t.a[2].lb
+	case OUDiv:
+		if t.a[1].op == OConst && t.a[1].c != 0 {
+			return t.a[0].lb / t.a[1].c
+		}
+	case OMul:
+		hi, lo := bits.Mul64(t.a[0].ub, t.a[1].ub)
+		if hi == 0 && lo <= mask(t.w) {
+			return t.a[0].lb * t.a[1].lb
+		}
+	}
+	return 0
 }
 
 func (c *Ctx) Const(w int, v uint64) *Term {
@@ -351,6 +448,10 @@ func (c *Ctx) Bin(op Op, x, y *Term) *Term {
 		if y.op == OConst && y.c == 0 {
 			return x
 		}
+		if x.pm&y.pm == 0 && y.op != OConst {
+			// no carries possible: canonicalise to or
+			return c.Bin(OOr, x, y)
+		}
 		// (a + c1) + c2
 		if y.op == OConst && x.op == OAdd && x.a[1].op == OConst {
 			return c.Bin(OAdd, x.a[0], c.Const(w, x.a[1].c+y.c))
@@ -365,7 +466,7 @@ func (c *Ctx) Bin(op Op, x, y *Term) *Term {
 		if x == y {
 			return c.Const(w, 0)
 		}
-		if y.op == OConst {
+		if y.op == OConst && x.lb < y.c {
 			return c.Bin(OAdd, x, c.Const(w, -y.c))
 		}
 		// (a + k) - a
@@ -716,7 +817,7 @@ func (c *Ctx) Eq(x, y *Term) *Term {
 		return c.mk(&Term{op: OEq, w: 0, a: []*Term{x, y}})
 	}
 	if y.op == OConst {
-		if y.c > x.ub {
+		if y.c > x.ub || y.c < x.lb {
 			return c.False
 		}
 		// zext(a) == c
@@ -778,6 +879,12 @@ func (c *Ctx) Cmp(op Op, x, y *Term) *Term {
 	}
 	switch op {
 	case OUlt:
+		if x.ub < y.lb {
+			return c.True
+		}
+		if x.lb >= y.ub {
+			return c.False
+		}
 		if y.op == OConst && x.ub < y.c {
 			return c.True
 		}
@@ -788,6 +895,12 @@ func (c *Ctx) Cmp(op Op, x, y *Term) *Term {
 			return c.False
 		}
 	case OUle:
+		if x.ub <= y.lb {
+			return c.True
+		}
+		if x.lb > y.ub {
+			return c.False
+		}
 		if y.op == OConst && x.ub <= y.c {
 			return c.True
 		}
